@@ -47,6 +47,11 @@ type Case struct {
 	SList  SpecRes   `json:"slist"`
 	SUint  SpecRes   `json:"suint"`
 	Count  SpecRes   `json:"count"`
+	Iter   struct {
+		OK    bool     `json:"ok"`
+		C     []string `json:"c"`
+		Elems []rb.B   `json:"elems"`
+	} `json:"iter"`
 }
 
 type CaseFile struct {
@@ -207,6 +212,49 @@ func runCases(path string, sum *tl.Summary) {
 				bad(fmt.Sprintf("CountValues(%x) = %d, specification %d", in, n, c.Count.N), tl.M{"want": c.Count})
 			}
 			sum.Evaluations += 7
+		}
+		// list iterator and SplitListValues
+		{
+			it, err := rlp.NewListIterator(rlp.RawValue(in))
+			sum.Count("ListIterator")
+			sum.Evaluations += 2
+			if d := verdict("NewListIterator", in, c.Iter.OK, c.Iter.C, err); d != "" {
+				bad(d, tl.M{"want": c.Iter})
+			} else if err == nil {
+				var elems [][]byte
+				var ierr error
+				for it.Next() {
+					if it.Err() != nil {
+						ierr = it.Err()
+						break
+					}
+					elems = append(elems, append([]byte{}, it.Value()...))
+				}
+				same := len(elems) == len(c.Iter.Elems)
+				for j := 0; same && j < len(elems); j++ {
+					same = eqB(c.Iter.Elems[j], elems[j])
+				}
+				if !same {
+					bad(fmt.Sprintf("list iterator over %x yields %x, specification %v", in, elems, c.Iter.Elems), tl.M{"want": c.Iter})
+				}
+				if (ierr != nil) != (len(c.Iter.C) > 0) || (ierr != nil && !hasClass(c.Iter.C, rb.Class(ierr))) {
+					bad(fmt.Sprintf("list iterator over %x ends with error %v, specification %v", in, ierr, c.Iter.C), tl.M{"want": c.Iter})
+				}
+				vals, verr := rlp.SplitListValues(in)
+				if (verr == nil) != (len(c.Iter.C) == 0) {
+					bad(fmt.Sprintf("SplitListValues(%x) err=%v, specification element error classes %v", in, verr, c.Iter.C), tl.M{"want": c.Iter})
+				} else if verr == nil {
+					ok := len(vals) == len(c.Iter.Elems)
+					for j := 0; ok && j < len(vals); j++ {
+						ok = eqB(c.Iter.Elems[j], vals[j])
+					}
+					if !ok {
+						bad(fmt.Sprintf("SplitListValues(%x) = %x, specification %v", in, vals, c.Iter.Elems), tl.M{"want": c.Iter})
+					}
+				}
+			} else if _, verr := rlp.SplitListValues(in); verr == nil {
+				bad(fmt.Sprintf("SplitListValues(%x) accepts what NewListIterator rejects", in), tl.M{"want": c.Iter})
+			}
 		}
 		sum.Steps++
 		if nontrivial {
